@@ -237,7 +237,8 @@ void do_blank_lines()
          }
 
          if (  tmp->IsNotNullChunk()
-            && !start->TestFlags(PCF_INCOMPLETE))
+            && !start->TestFlags(PCF_INCOMPLETE)
+            && can_increase_nl(tmp))
          {
             if (parent_type == CT_CLASS && options::nl_before_class() > tmp->GetNlCount())
             {
@@ -266,7 +267,8 @@ void do_blank_lines()
          }
 
          if (  tmp->IsNotNullChunk()
-            && options::nl_before_namespace() > tmp->GetNlCount())
+            && options::nl_before_namespace() > tmp->GetNlCount()
+            && can_increase_nl(tmp))
          {
             log_rule_B("nl_before_namespace");
             blank_line_set(tmp, options::nl_before_namespace);
